@@ -110,7 +110,8 @@ class Model:
             m = []
             for s in (0, 1):
                 for side in self.sides:
-                    for e in ("fixedValue", "fixedGradient", "newtonCooling", "defaultNoFlux", "set_a", "slice_c", "index_a"):
+                    for e in ("fixedValue", "fixedGradient", "newtonCooling", "defaultNoFlux", "set_a", "slice_c", "index_a",
+                              "set_b", "set_c", "newtonReverse", "fixedGradientScaled"):
                         m.append("bc:%d:%s:%s" % (s, side, e))
                 if self.paxis is not None:
                     m += ["per:%d:on" % s, "per:%d:off" % s]
@@ -232,6 +233,14 @@ class Model:
             elif e == "index_a":
                 a = bf.a
                 a[(0,) * a.ndim] = 3.0
+            elif e == "set_b":
+                bf.b = 0.5
+            elif e == "set_c":
+                bf.c = 1.25
+            elif e == "newtonReverse":
+                bf.newtonCooling(1.0, 2.0, 3.0, reverse_direction=True)
+            elif e == "fixedGradientScaled":
+                bf.fixedGradient(0.5, scale_coeffs=2.0)
         elif p[0] == "per":
             lo, hi = U.SIDES[self.paxis]
             getattr(v.BCs, lo).periodic = (p[2] == "on")
